@@ -11,6 +11,8 @@ from typing import Any, Callable, Dict, List, Optional
 
 ROOT = os.path.dirname(os.path.abspath(__file__))
 sys.path.insert(0, ROOT)
+OUT = os.environ.get("VERIF_OUT") or ROOT  # (only the seeded-change matrix redirects its output)
+REPO = os.environ.get("VERIF_REPO") or "/repo"
 
 from sx import engine  # noqa: E402
 
@@ -44,12 +46,12 @@ def load_known() -> Dict[str, Any]:
 
 def source_hashes() -> Dict[str, str]:
     out = {}
-    base = "/repo/tawazi"
+    base = REPO + "/tawazi"
     for dp, _, fns in os.walk(base):
         for fn in sorted(fns):
             if fn.endswith(".py"):
                 p = os.path.join(dp, fn)
-                out[os.path.relpath(p, "/repo")] = hashlib.sha256(open(p, "rb").read()).hexdigest()[:16]
+                out[os.path.relpath(p, REPO)] = hashlib.sha256(open(p, "rb").read()).hexdigest()[:16]
     return out
 
 
@@ -92,8 +94,8 @@ def run_check(pid: str, tier: str, level: str, parts: List[Part], assumptions: L
     t0 = time.time()
     known = load_known()
     known_for = {k["id"]: k for k in known.get("known", []) if k["property"] == pid}
-    os.makedirs(os.path.join(ROOT, "evidence"), exist_ok=True)
-    os.makedirs(os.path.join(ROOT, "replays"), exist_ok=True)
+    os.makedirs(os.path.join(OUT, "evidence"), exist_ok=True)
+    os.makedirs(os.path.join(OUT, "replays"), exist_ok=True)
     status = EXIT_OK
     lines: List[str] = []
     part_reports = []
@@ -136,7 +138,7 @@ def run_check(pid: str, tier: str, level: str, parts: List[Part], assumptions: L
             continue
         if r.violation is not None:
             rec = r.violation
-            path = os.path.join(ROOT, "replays", "%s-%s-%d.json" % (pid, part.name, int(time.time())))
+            path = os.path.join(OUT, "replays", "%s-%s-%d.json" % (pid, part.name, int(time.time())))
             rp = engine.replay(part.harness, rec)
             rec["replay"] = {k: (v if k != "violation" else (v or {}).get("msg")) for k, v in rp.items()}
             rec["part"] = part.name
@@ -270,7 +272,7 @@ def run_check(pid: str, tier: str, level: str, parts: List[Part], assumptions: L
         "property_id": pid, "tier": tier, "seed": seed, "level": level, "coverage": cov,
         "assumptions": assumptions, "wall_s": round(wall, 2), "violations": violations,
     }
-    with open(os.path.join(ROOT, "evidence", "%s.json" % pid), "w") as f:
+    with open(os.path.join(OUT, "evidence", "%s.json" % pid), "w") as f:
         json.dump(engine._jsonable(ev), f, indent=1)
     print("%s %s: %s  paths=%d checks=%d solver_calls=%d solver_s=%.1f wall=%.1fs" % (
         pid, tier, {0: "HOLDS within bounds", 1: "VIOLATION", 2: "INCONCLUSIVE"}[status], paths, total.checks,
@@ -331,7 +333,7 @@ def kernel_extra(pid: str, prefixes: List[str], timeout: int = 40) -> Callable[[
             except Exception as e:  # noqa: BLE001
                 confirmed, detail = False, repr(e)
             if confirmed:
-                path = os.path.join(ROOT, "replays", "%s-kernel-%s-%d.json" % (pid, r["kernel"], int(time.time())))
+                path = os.path.join(OUT, "replays", "%s-kernel-%s-%d.json" % (pid, r["kernel"], int(time.time())))
                 with open(path, "w") as f:
                     json.dump({"property": pid, "kernel": r["kernel"], "call": call, "crosshair": r["output"], "concrete": detail}, f, indent=1)
                 out["_lines"].append("VIOLATION property=%s replay=%s" % (pid, path))
